@@ -81,6 +81,7 @@ type World struct {
 	// C07
 	NoCasOracle bool // nbsrefs: the C02 register rules are C02's business; only "a rejected write leaves the root alone" is kept
 	RefsOracle  bool
+	AddedByTables map[int]bool // chunks that entered through any successful AddTableFilesToManifest
 	UnsafeAdded map[int]bool // chunks that entered through AddTableFilesToManifest while the store was uninitialised (root = 0)
 }
 
@@ -708,8 +709,12 @@ func (w *World) doAddTables(op *Op, st *nbs.NomsBlockStore) string {
 		w.E.Rep.Hit("addtables:into-uninitialized-store")
 	}
 	if err == nil {
+		if w.AddedByTables == nil {
+			w.AddedByTables = map[int]bool{}
+		}
 		for _, t := range op.Tables {
 			for _, id := range t {
+				w.AddedByTables[id] = true
 				w.Acked[id] = true // AddTableFilesToManifest is itself a manifest update: the files' chunks are persisted
 			}
 		}
@@ -754,6 +759,11 @@ func (w *World) CheckClosure(what string) {
 		ok, err := st.Has(w.Ctx, w.H(a))
 		if err != nil || !ok {
 			key := "C07/reachable-chunk-missing"
+			if p, okp := parent[a]; okp && w.AddedByTables[p] && !w.UnsafeAdded[p] {
+				// the referrer came in through AddTableFilesToManifest with a root present: its reference check was
+				// satisfied by a chunk the adding handle had not persisted (memtable / novel table)
+				key = "C07/addtablefiles-ref-resolved-by-unpersisted-chunk"
+			}
 			if p, okp := parent[a]; okp && w.UnsafeAdded[p] {
 				key = "C07/addtablefiles-into-uninitialized-store-skips-refcheck"
 			} else if !okp && w.UnsafeAdded[a] {
